@@ -14,14 +14,37 @@ open Irismod.Sdk Irismod.GoSem Irismod.Gen.PureHtlc Irismod.Htlc
 theorem htlc_all_translated : Irismod.Gen.PureHtlc.untranslated = [] := rfl
 
 theorem htlc_translated_pinned : Irismod.Gen.PureHtlc.translated =
-    ["IncCurrent_supplyLimit_1", "IncCurrent_timeBasedSupplyLimit_1", "IncCurrent_supply_TimeLimitedCurrentSupply_1",
-     "IncCurrent_supply_CurrentSupply_1", "IncCurrent_guard_1", "IncCurrent_guard_2",
-     "DecCurrent_supply_CurrentSupply_1", "DecCurrent_guard_1", "IncIncoming_totalSupply_1",
-     "IncIncoming_supplyLimit_1", "IncIncoming_timeLimitedTotalSupply_1", "IncIncoming_timeBasedSupplyLimit_1",
-     "IncIncoming_supply_IncomingSupply_1", "IncIncoming_guard_1", "IncIncoming_guard_2",
-     "DecIncoming_supply_IncomingSupply_1", "DecIncoming_guard_1", "IncOutgoing_supply_OutgoingSupply_1",
-     "IncOutgoing_guard_1", "DecOutgoing_supply_OutgoingSupply_1", "DecOutgoing_guard_1",
-     "UpdateWindow_newTimeElapsed_1", "UpdateWindow_supply_TimeElapsed_1", "UpdateWindow_supply_TimeElapsed_2",
+    ["IncCurrent_supplyLimit_1",
+     "IncCurrent_timeBasedSupplyLimit_1",
+     "IncCurrent_supply_TimeLimitedCurrentSupply_1",
+     "IncCurrent_supply_CurrentSupply_1",
+     "IncCurrent_guard_1",
+     "IncCurrent_guard_2",
+     "DecCurrent_supply_CurrentSupply_1",
+     "DecCurrent_guard_1",
+     "IncIncoming_totalSupply_1",
+     "IncIncoming_supplyLimit_1",
+     "IncIncoming_timeLimitedTotalSupply_1",
+     "IncIncoming_timeBasedSupplyLimit_1",
+     "IncIncoming_supply_IncomingSupply_1",
+     "IncIncoming_guard_1",
+     "IncIncoming_guard_2",
+     "DecIncoming_supply_IncomingSupply_1",
+     "DecIncoming_guard_1",
+     "IncOutgoing_supply_OutgoingSupply_1",
+     "IncOutgoing_guard_1",
+     "DecOutgoing_supply_OutgoingSupply_1",
+     "DecOutgoing_guard_1",
+     "createHTLT_guard_1",
+     "createHTLT_guard_2",
+     "createHTLT_guard_3",
+     "createHTLT_guard_4",
+     "createHTLT_guard_5",
+     "createHTLT_guard_6",
+     "createHTLT_guard_7",
+     "UpdateWindow_newTimeElapsed_1",
+     "UpdateWindow_supply_TimeElapsed_1",
+     "UpdateWindow_supply_TimeElapsed_2",
      "UpdateWindow_cond_1"] := rfl
 
 local macro "hsimp" "[" hs:ident,* "]" : tactic =>
@@ -129,5 +152,32 @@ theorem tick_eq_translation (a : Asset) (dt : Int) (sup : Supply)
     rw [e0]; omega
   simp only [obind_some, e]
   by_cases c : (a.timeLimited && decide (sup.elapsed + dt < a.period)) = true <;> simp [c]
+
+/-- the rejecting guards of `createHTLT` over amounts, time locks and the timestamp window are the model's
+(`createHTLT`, `createOutgoing`, `tsOutOfRange` — including the `uint64` conversion of a negative lower limit, which
+makes every timestamp "too early" in the first 15 minutes after the epoch) -/
+theorem createHTLT_guards_eq_model (d : String) (n ts timeLock time : Nat) (a : Asset)
+    (hts : ts < 18446744073709551616) (htime : unix time + 1800 < 9223372036854775808)
+    (hfee : a.fixedFee + a.minSwap < pow2_256) :
+    createHTLT_guard_2 ⟨d, n⟩ a.minSwap a.maxSwap = some (decide (n < a.minSwap ∨ a.maxSwap < n)) ∧
+    createHTLT_guard_3 ts ((unix time : Int) - 900) ((unix time : Int) + 1800) = some (tsOutOfRange time ts) ∧
+    createHTLT_guard_6 timeLock a.minLock a.maxLock = some (decide (timeLock < a.minLock ∨ a.maxLock < timeLock)) ∧
+    createHTLT_guard_7 ⟨d, n⟩ a.fixedFee a.minSwap = some (decide (n < a.fixedFee + a.minSwap)) := by
+  refine ⟨?_, ?_, ?_, ?_⟩
+  · unfold createHTLT_guard_2
+    simp only [Int_LT, Int_GT, Int.ofNat_lt]
+    by_cases h1 : n < a.minSwap <;> by_cases h2 : a.maxSwap < n <;> simp [h1, h2]
+  · unfold createHTLT_guard_3 tsOutOfRange U64_ofI64
+    congr 1
+    apply Bool.eq_iff_iff.mpr
+    simp only [Bool.or_eq_true, decide_eq_true_eq, ge_iff_le]
+    show (ts < (((unix time : Int) - 900) % 18446744073709551616).toNat ∨
+          (((unix time : Int) + 1800) % 18446744073709551616).toNat ≤ ts) ↔
+         ((unix time < 900 ∨ ts < unix time - 900) ∨ unix time + 1800 ≤ ts)
+    omega
+  · unfold createHTLT_guard_6
+    by_cases h1 : timeLock < a.minLock <;> by_cases h2 : a.maxLock < timeLock <;> simp [h1, h2]
+  · unfold createHTLT_guard_7
+    simp only [Int_Add_nat, hfee, if_true, obind_some, Int_LT, Int.ofNat_lt]
 
 end Irismod.Props.Tie
